@@ -566,6 +566,9 @@ func judgeRequest(gc graphCase, flows map[string]sim.GFlow, s steer, trace []ev,
 				return res.Early != nil
 			}
 			reqEv = append(reqEv, e)
+			if strings.Contains(e.Key, ".") {
+				v.Count("executions_of_another_flows_processor_beside_a_local_namesake", 1)
+			}
 		} else {
 			respEv = append(respEv, e)
 		}
